@@ -22,8 +22,8 @@ class C03(Prop):
         "credentials (v3 state tracked from accepted messages). non-trivial = >= 2 requests were emitted and at least one earlier call on the "
         "pool ended abnormally or received a reply; distinct = distinct abstract trace"
     )
-    quick_runs = 2500
-    thorough_runs = 40000
+    quick_runs = 12000
+    thorough_runs = 150000
 
     def families(self, tier):
         return [("mixed-sync", 3), ("mixed-async", 2), ("single", 2)]
